@@ -167,7 +167,10 @@ class GenDyn(Gen):
         kinds = list(PROFILE_DYN)
         for _ in range(60):
             kind = rng.choices(kinds, [PROFILE_DYN[k] for k in kinds])[0]
-            op = getattr(self, "mk_" + kind)()
+            try:
+                op = getattr(self, "mk_" + kind)()
+            except (IndexError, KeyError, ValueError):
+                op = None       # nothing of that kind can be generated in the current state
             if op is not None:
                 return op
         return {"op": "set_ref", "s": [], "n": "g", "v": ["int", 71, [], ""], "mode": "auto"}
